@@ -287,11 +287,15 @@ def one_job(pid, tier, seed, job, bins, only=None):
     return st, outs, table, jkey, tag
 
 
-def trace_props(op, why, viol=None):
+def trace_props(op, why, viol=None, ev=None):
     """properties a rejected event contradicts: `why` names the group of conjuncts of Trace.tla that failed"""
     if why == "PANIC":
         return {"C04"}
     if why in ("WF", "CHAIN"):
+        # the state is observed with iter(): when it yields another number of entries than len() reports, "len() equals
+        # what iteration yields" (C05) and "iter yields every stored entry exactly once" (C09) are both contradicted
+        if ev and isinstance(ev.get("p"), list) and ev.get("len") != len(ev["p"]) + ev.get("hid2", 0):
+            return {"C05", "C03", "C09"}
         return {"C05", "C03"}
     if why == "VIOL":
         # what the instruments saw during the call: the harness' own notes name their properties
@@ -403,7 +407,7 @@ def trace_job(pid, tier, seed, job, bins, tag, jkey):
             except Exception:
                 pass
             mw = re.search(r'"REJECTED-AT",\s*\d+,\s*"(\w+)"', q.stdout)
-            props = trace_props((ev or {}).get("o", {}), mw.group(1) if mw else "ALLOW", (ev or {}).get("viol")) if ev else {"CRASH"}
+            props = trace_props((ev or {}).get("o", {}), mw.group(1) if mw else "ALLOW", (ev or {}).get("viol"), ev) if ev else {"CRASH"}
             why = "the harness died while recording" if crashed and ev is None else "TLC rejects event %d of the recorded execution: it is not a step the specification (Dict.tla) allows" % depth
             errs = [l for l in q.stdout.splitlines() if l.startswith("Error:") or "REJECTED" in l]
             for pr in props:
